@@ -269,6 +269,7 @@ func runC11(c *Ctx) {
 	rulePathBytesPassThrough(c)
 	ruleParserCursor(c)
 	ruleASCIIFold(c)
+	ruleLimiterBypass(c) // a well-formed line within the limit is not refused as too long: octets of a chunk read with the limit lifted are not counted towards the next command line
 	ruleNoPartialLine(c) // "exactly as sent, or refused": the buffered beginning of an over-long line is never parsed as the command
 
 	R.Rule("R-enum-whitelist", "E3 edge-feasibility", "BODY, RET, NOTIFY elements and the ORCPT address type are accepted only when equal to a declared constant", 6)
